@@ -224,8 +224,50 @@ def specials_dec():
             ("big", enc_dec(10 ** 30, 0)), ("big18", enc_dec(10 ** 36 + 7, 18))]
 
 
+_CODE_LITS = None
+
+
+def code_literals():
+    """numeric literals of the algorithm sources that the verified snapshot does not contain
+    (`tools/literals.py`, written by `pipeline.prepare`); empty on the unchanged tree"""
+    global _CODE_LITS
+    if _CODE_LITS is None:
+        import json
+        import os
+        p = os.path.join(os.path.dirname(os.path.dirname(os.path.abspath(__file__))), "work", "code_literals.json")
+        try:
+            _CODE_LITS = [Fraction(n, d) for n, d in json.load(open(p))]
+        except Exception:  # noqa: BLE001
+            _CODE_LITS = []
+    return _CODE_LITS
+
+
+def literal_amounts(be, rng):
+    """amount classes around every such literal: the value, its neighbours, its negative, half and double,
+    and the value scaled by a power of ten (a threshold on a magnitude is met by amounts in other units)"""
+    out = []
+    for v in code_literals():
+        cands = [("code-literal", v), ("code-literal-neg", -v), ("code-literal-half", v / 2), ("code-literal-double", v * 2),
+                 ("code-literal-scaled", v * Fraction(10) ** (rng.below(25) - 12))]
+        if be == "f64":
+            x = frac_to_f64(v)
+            out += [("code-literal-next", enc_f64(f64_next(x))), ("code-literal-prev", enc_f64(f64_next(x, False)))]
+            out += [(lab, enc_f64(frac_to_f64(q))) for lab, q in cands]
+        else:
+            eps = Fraction(1, 10 ** 18)
+            cands += [("code-literal-next", v + eps), ("code-literal-prev", v - eps)]
+            for lab, q in cands:
+                c, n = frac_to_dec(q)
+                if abs(c) < 2 ** 127:
+                    out.append((lab, enc_dec(c, n)))
+    return out
+
+
 def amounts(be, rng, n_random=4):
-    return amounts_f64(rng, n_random) if be == "f64" else amounts_dec(rng, n_random)
+    base = amounts_f64(rng, n_random) if be == "f64" else amounts_dec(rng, n_random)
+    lits = literal_amounts(be, rng)
+    # the dictionary classes get about half of the draws when there are any
+    return base + lits * max(1, len(base) // max(1, len(lits))) if lits else base
 
 
 def specials(be):
